@@ -40,6 +40,8 @@ var verifCastProgs = []verifCastProg{
 		func(a int64) string { return fmt.Sprint(a+2) + "\ncaught\n2\n" }},
 	{"partially-dynamic-option", "fn main() {\n  let o = new { k: A } as { ? };\n  let any_opt: ?any = o.get(\"k\");\n  let good = any_opt as ?int;\n  println(good.unwrap() + 1);\n  try {\n    let bad = any_opt as ?str;\n    println(\"not reached\", bad);\n  } catch e {\n    println(\"caught\");\n  }\n}\n",
 		func(a int64) string { return fmt.Sprint(a+1) + "\ncaught\n" }},
+	{"object-as-any-object-leaves-the-object-typed", "fn main() {\n  let o = new { n: A, m: 2 };\n  let a = o as { ? };\n  a.set(\"n\", \"text\");\n  a.set(\"extra\", 1);\n  println(o.n + 1, o.m);\n  println(a.keys().len());\n}\n",
+		func(a int64) string { return fmt.Sprint(a+1) + " 2\n3\n" }},
 	{"parse-json", "fn main() {\n  let r = \"{\\\"val\\\": 42}\".parse_json() as { val: int };\n  println(r.val + A);\n  try {\n    let s = \"{\\\"val\\\": 42}\".parse_json() as { val: str };\n    println(\"not reached\", s);\n  } catch e {\n    println(\"caught\");\n  }\n  println(\"end\");\n}\n",
 		func(a int64) string { return fmt.Sprint(42+a) + "\ncaught\nend\n" }},
 }
